@@ -7,7 +7,7 @@ use crate::vocab;
 use serde_json::json;
 use text2num::{replace_numbers_in_text, text2digits};
 
-pub const WS: [&str; 14] = [" ", "  ", "\t", "\n", "\r\n", "\u{a0}", "\u{2009}", "\u{202f}", "\u{3000}", " \t ", "\u{85}", "\u{2028}", "\u{1680}", "\u{b}"];
+pub const WS: [&str; 16] = [" ", "  ", "\t", "\n", "\r\n", "\u{a0}", "\u{2009}", "\u{202f}", "\u{3000}", " \t ", "\u{85}", "\u{2028}", "\u{1680}", "\u{b}", "\n\n", "\n \n"];
 
 /// positions (byte ranges) of the maximal whitespace runs of `s`
 fn ws_runs(s: &str) -> Vec<(usize, usize)> {
@@ -112,7 +112,7 @@ pub fn alphabet(l: L, n: usize) -> Vec<String> {
         }
         _ => {}
     }
-    v.extend([c.hundred, c.conj, ",".to_string(), c.sep, c.zero, c.small_ord, c.linking, ".".to_string(), c.thousand, c.teen]);
+    v.extend([c.hundred, c.conj, ",".to_string(), "-".to_string(), c.sep, c.zero, c.small_ord, c.linking, ".".to_string(), c.thousand, c.teen]);
     if let Some(x) = c.compound {
         v.push(x);
     }
@@ -128,7 +128,7 @@ pub fn alphabet(l: L, n: usize) -> Vec<String> {
 
 pub fn run(tier: Tier) -> i32 {
     let ctx = Ctx::new("C17", tier);
-    let (n, k) = tier.pick((14usize, 4usize), (12, 5));
+    let (n, k) = tier.pick((15usize, 4usize), (13, 5));
     let mut total = Acc::new();
     let mut alphas = vec![];
     for l in langs::ALL {
@@ -140,7 +140,7 @@ pub fn run(tier: Tier) -> i32 {
     }
     let cov = json!({
         "exhaustive": true,
-        "rule": "every word sequence of length <= k joined by single spaces; every maximal whitespace run replaced uniformly and one at a time by each of 14 whitespace strings, and each prepended/appended; validator, occurrence texts/values and pass-through compared with the original at thresholds 0 and 10; non-trivial = substituted variants",
+        "rule": "every word sequence of length <= k joined by single spaces; every maximal whitespace run replaced uniformly and one at a time by each of 16 whitespace strings, and each prepended/appended; validator, occurrence texts/values and pass-through compared with the original at thresholds 0 and 10; non-trivial = substituted variants",
         "bounds": {"alphabet": n, "depth": k, "whitespace_kinds": WS.iter().map(|w| w.escape_unicode().to_string()).collect::<Vec<_>>()},
         "alphabets": alphas,
     });
